@@ -1,9 +1,9 @@
 /-
   The fragment of histories for which `C10_partial` is proved: every op except rename, remove_file,
   remove_dir, remove_dir_all (no namespace removal), with no *shrinking* `set_len` / truncating open
-  of a non-empty file, and no file creation over a directory; `create_dir_all`, `read_dir` and the
-  harness' `dump` are not covered by the proof (they are covered by K/O).  The conditions are
-  decidable and are judged against the POSIX tree the op meets.
+  of a non-empty file, and no file creation over a directory; `create_dir_all` is not covered by the
+  proof (it is covered by K/O).  The conditions are decidable and are judged against the POSIX tree
+  the op meets.
 -/
 import TvFs.Model.Spec
 
@@ -39,6 +39,8 @@ def fragOk (l : Live) : Op → Bool
   | .stat _ => true
   | .exists _ => true
   | .readFile _ => true
+  | .readDir _ => true
+  | .dump _ => true
   | .writeFile p _ => !(isDirAt l p) && emptyOrAbsent l p
   | _ => false
 
